@@ -111,6 +111,29 @@ def source_scopes(pcode: str, nodes) -> tuple[dict, dict]:
     return tpar, tprev
 
 
+def text_trailing(pcode: str) -> tuple[set[int], set[int]]:
+    """Which blank/comment lines are "at the end of a scope", from the SOURCE TEXT only (0-based line numbers):
+    `tail`  — no instruction line follows in the whole method (the end of every enclosing scope);
+    `inner` — an indented comment line that closes the body of a nested scope: the next instruction line is
+              indented less (its scope has more lines to come further out, the comment's own scope has none)."""
+    lines = pcode.split("\n")
+
+    def is_ws(t: str) -> bool:
+        return not t.strip() or t.strip().startswith("#")
+    instr = [i for i, t in enumerate(lines) if not is_ws(t)]
+    last = max(instr) if instr else -1
+    tail = {i for i, t in enumerate(lines) if is_ws(t) and i > last}
+    inner: set[int] = set()
+    for i, t in enumerate(lines):
+        if i in tail or not t.strip().startswith("#"):
+            continue
+        d = len(t) - len(t.lstrip(" "))
+        nxt = next((j for j in instr if j > i), None)
+        if d > 0 and nxt is not None and len(lines[nxt]) - len(lines[nxt].lstrip(" ")) < d:
+            inner.add(i)
+    return tail, inner
+
+
 def oracle_case(case: dict) -> list[Failure]:  # noqa: C901
     """The property as worded, on the real engine.  One failure per kind at most.  The enclosing scope and
     the preceding line of an instruction are those of the source text (indentation)."""
@@ -151,17 +174,26 @@ def oracle_case(case: dict) -> list[Failure]:  # noqa: C901
                 a = parent_of(a)
                 k += 1
         # an interrupt (Watch/Alarm) below an Alarm: the re-armed Alarm and the interrupt's own generator race
-        nest = any(cls[n.id] in ("WatchNode", "AlarmNode") and any(cls[a.id] == "AlarmNode" for a in anc(n)) for n in nodes)
-        suffix = ":alarm-nest" if nest else ""
+        nested = {n.id for n in nodes
+                  if cls[n.id] in ("WatchNode", "AlarmNode") and any(cls[a.id] == "AlarmNode" for a in anc(n))}
+
+        def in_nest(n) -> bool:
+            """the failing line is the nested Watch/Alarm itself or lies inside it"""
+            return n.id in nested or any(a.id in nested for a in anc(n))
         rep = {n.id: cls[n.id] in ("AlarmNode", "MacroNode") or any(cls[a.id] in ("AlarmNode", "MacroNode") for a in anc(n)) for n in nodes}
-        ws = {n.id: bool(getattr(n, "has_only_trailing_whitespace", False)) for n in nodes}
+        # "blank and comment lines at the end of a scope": decided from the source text, not from the attribute
+        # the code's own analyzer computes (has_only_trailing_whitespace)
+        tail_lines, inner_lines = text_trailing(pcode)
+        is_wsnode = {n.id: cls[n.id] in ("BlankNode", "CommentNode") for n in nodes}
+        ws = {n.id: is_wsnode[n.id] and n.position.line in tail_lines for n in nodes}
+        ws_inner = {n.id: is_wsnode[n.id] and n.position.line in inner_lines for n in nodes}
         index = {n.id: list(n.parent.children).index(n) for n in nodes if n.parent is not None}
         starts = {n.id: 0 for n in nodes}
         prev = {n.id: (False, False) for n in nodes}
         inits: dict[str, int] = {}
 
         def add(kind: str, t: int, n, text: str, sfx: str | None = None):
-            key = kind + (suffix if sfx is None else sfx)
+            key = kind + ((":alarm-nest" if in_nest(n) else "") if sfx is None else sfx)
             if key not in fails:
                 fails[key] = Failure(key, case, f"tick {t}, line {n.position.line + 1} "
                                                 f"({n.instruction_name}: {n.arguments}): {text}")
@@ -215,12 +247,15 @@ def oracle_case(case: dict) -> list[Failure]:  # noqa: C901
                         add("started-flag-cleared", t, n, "started was cleared in a run without edits")
                     if pc and not n.completed:
                         add("completed-flag-cleared", t, n, "completed was cleared in a run without edits")
-                if ws[n.id]:
-                    if n.completed:
-                        add("trailing-whitespace-completed", t, n, "a trailing blank/comment line was completed")
+                if ws[n.id] or ws_inner[n.id]:
+                    sfx = None if ws[n.id] else ":inner-scope"
                     par = n.parent
-                    if par is not None and par.child_index > index[n.id] and not getattr(par, "block_ended", False):
-                        add("trailing-whitespace-passed", t, n, f"child_index of the scope is {par.child_index}")
+                    ended = par is not None and getattr(par, "block_ended", False)
+                    if n.completed and not ended:
+                        add("trailing-whitespace-completed", t, n,
+                            "a blank/comment line at the end of its scope was completed", sfx)
+                    if par is not None and par.child_index > index[n.id] and not ended:
+                        add("trailing-whitespace-passed", t, n, f"child_index of the scope is {par.child_index}", sfx)
                 prev[n.id] = (n.started, n.completed)
         hist = [x for x in str(snap["tags"].get("Mark") or "").split("; ") if x] if snap else []
         names = [n.arguments for n in nodes if cls[n.id] == "MarkNode"]
